@@ -129,6 +129,10 @@ def build_mask(case):
     m = bits.astype(bool) if case.get('dtype', 'int') == 'bool' else bits
     if case.get('form', 'array') == 'list':
         return m.tolist(), bits
+    if case.get('form') == 'array-F':
+        # same logical volume in column-major memory (what image loaders usually hand out):
+        # linear indices are still the row-major indices of the (x, y, z) coordinates
+        return np.asfortranarray(m), bits
     return m, bits
 
 
@@ -249,7 +253,7 @@ def geometry_case(draw):
     else:
         bits = [1] * n
     return dict(shape=shape, bits=bits, dtype=draw(st.sampled_from(['bool', 'int'])),
-                form=draw(st.sampled_from(['array', 'array', 'list'])),
+                form=draw(st.sampled_from(['array', 'array', 'list', 'array-F'])),
                 radius=draw(radius_st), threshold=draw(threshold_st), all_centres=True)
 
 
@@ -387,7 +391,11 @@ def check_rows(sl, data, events_plain, events_arg, centers, neighbors, method, t
 def rdm_case(draw):
     method = draw(st.sampled_from(METHODS))
     cv = method in CV_METHODS
-    des = draw(gen.design(n_cond_range=(2, 5), reps_range=(2, 3) if cv else (1, 3),
+    big = cv and draw(st.integers(0, 2)) == 0
+    # (cross-validated methods take their folds from the k-th occurrence of each event in
+    # observation order: also designs with many interleaved repetitions, > 16 observations)
+    des = draw(gen.design(n_cond_range=(4, 6) if big else (2, 5),
+                          reps_range=(4, 6) if big else ((2, 3) if cv else (1, 3)),
                           balanced=True if cv else None))
     n_vox = draw(st.integers(4, 14))
     if method in ('poisson', 'poisson_cv'):
